@@ -384,6 +384,67 @@ def run_drivers(u, out):
                 out['fails'].append({'sig': 'C12|expm|D=1 differs from the plain-array value', 'case': {'kind': 'drivers', 'name': 'expm', 'norm': norm}, 'detail': {}})
 
 
+def check_direct_pullbacks(prog, seed, out):
+    """every recorded node's pullback function called directly at D = 4 and on the data truncated to D' = 1, 2, 3 (arguments,
+    results and seeds truncated alike): the adjoint coefficients of order < D' agree.  This sees errors that a surrounding
+    program would project away (e.g. an antisymmetric error in the adjoint of a symmetric argument)"""
+    D = 4
+    if PR.in_domain(prog, [PR.POINTS[p] for p in range(P)]) is not None:
+        return
+    Function.cgraph = None
+    try:
+        cg, x, y = PR.record(prog, UTPM(PR.curve(seed, D, P)))
+    except Exception:
+        Function.cgraph = None
+        return
+    Function.cgraph = None
+    ps = PR.prog_str(prog)
+
+    def trunc(v, Dp):
+        return UTPM(v.data[:Dp].copy()) if isinstance(v, UTPM) else v
+    for F in cg.functionList:
+        nm = getattr(F.func, '__name__', '')
+        if F.func == Function.Id or nm in ('__setitem__', 'setitem', '__getitem__', 'getitem') or nm.startswith('__i'):
+            continue
+        outs = F.x if isinstance(F.x, tuple) else (F.x,)
+        pb = getattr(UTPM, 'pb_' + nm, None)
+        if pb is None or not all(isinstance(o, UTPM) for o in outs):
+            continue
+        args = [a.x if isinstance(a, Function) else a for a in F.args]
+        seeds = [UTPM(AD.dense(o.data.shape, seed, 80 + k)) for k, o in enumerate(outs)]
+
+        def call(Dp):
+            a2 = [trunc(a, Dp) for a in args]
+            bars = [a.zeros_like() if isinstance(a, UTPM) else None for a in a2]
+            kw = {'out': list(bars)}
+            kw.update(F.kwargs)
+            pb(*([trunc(sd, Dp) for sd in seeds] + a2 + [trunc(o, Dp) for o in outs]), **kw)
+            return bars
+        try:
+            full = call(D)
+        except Exception:
+            continue
+        for Dp in range(1, D):
+            out['evals'] += 1
+            out['keys'].append('%s|pb_%s|%d' % (ps, nm, Dp))
+            try:
+                tr = call(Dp)
+            except Exception as ex:
+                continue
+            bad = None
+            for k, (fb, tb) in enumerate(zip(full, tr)):
+                if fb is None or tb is None:
+                    continue
+                why, w = cmp_low(fb.data, tb.data, Dp)
+                if why:
+                    bad = (k, why)
+                    break
+            if bad:
+                out['fails'].append({'sig': "C12|direct pullback pb_%s|D'%s" % (nm, '=1' if Dp == 1 else ('=2' if Dp == 2 else '>2')),
+                                     'case': {'kind': 'directpb', 'prog': prog, 'seed': seed, 'Dp': Dp}, 'detail': {'argument': bad[0], 'why': bad[1], 'program': ps}})
+                break
+
+
 def run_unit(u):
     out = {'evals': 0, 'keys': [], 'fails': [], 'samples': [], 'counters': {}, 'maxima': {}}
     if u['kind'] == 'entries':
@@ -407,6 +468,8 @@ def run_unit(u):
                 check_program(prog, depth, D, u['seed'], out)
             for D in ([3] if u['tier'] == 'quick' else [2, 3, 4]):
                 check_program_nonfinite(prog, depth, D, u['seed'], out)
+            if depth <= 1:
+                check_direct_pullbacks(prog, u['seed'], out)
         out['samples'] = [{'program': PR.prog_str(u['progs'][0][0]), 'modes': ['forward', 'reverse']}]
     return out
 
@@ -418,6 +481,8 @@ def replay(case):
     elif case['kind'] == 'high':
         run_high({'tier': 'thorough', 'seed': case.get('seed', 0)}, out)
         out['fails'] = [f for f in out['fails'] if f['case']['name'] == case['name'] and f['case']['D'] == case['D']]
+    elif case['kind'] == 'directpb':
+        check_direct_pullbacks(case['prog'], case.get('seed', 0), out)
     elif case['kind'] == 'drivers':
         run_drivers({}, out)
         out['fails'] = [f for f in out['fails'] if f['case'].get('name') == case.get('name')]
